@@ -199,9 +199,9 @@ class Exec:
           return Val("B", f"(match {a.s} with None => true | Some _ => false end)")
         if b.ty == "Z" and b.s == "(-1)" and isinstance(op, ast.NotEq):
           return Val("B", f"(match {a.s} with None => false | Some _ => true end)")
-        if b.ty == "Z" and b.s == "0" and isinstance(op, ast.LtE):
-          # None stands for -1, which is <= 0
-          return Val("B", f"(match {a.s} with None => true | Some v => rle v (0, 1) end)")
+        if b.ty == "Z" and b.s.isdigit() and isinstance(op, ast.LtE):
+          # None stands for -1, which is <= any non-negative constant
+          return Val("B", f"(match {a.s} with None => true | Some v => rle v ({b.s}, 1) end)")
         raise Fail("max_val_po2 comparison")
       cmpop = {ast.Eq: "=?", ast.Gt: ">?", ast.Lt: "<?", ast.GtE: ">=?", ast.LtE: "<=?"}.get(type(op))
       if isinstance(op, ast.NotEq):
